@@ -76,10 +76,17 @@ TbClone == /\ TbCall("clone")
               ELSE IF ~e.panic /\ e.slots = tbl[e.from] /\ e.res = 1 THEN tbl' = (e.h :> e.slots) @@ tbl /\ lost' = lost \ {e.h}
               ELSE Report(e, "clone", tbl[e.from]) /\ tbl' = tbl /\ lost' = lost \cup {e.h}
            /\ Keep
+\* derived PartialEq: equal iff slot-wise equal; derived Hash: equal tables hash equally (v = 1 iff the hashes agree)
+TbEq == /\ TbCall("eq")
+        /\ LET e == Rec[l] IN
+           IF {e.from, e.h} \cap lost # {} \/ ~({e.from, e.h} \subseteq DOMAIN tbl) THEN TRUE
+           ELSE Require((e.res = 1) = (tbl[e.from] = tbl[e.h]) /\ (tbl[e.from] = tbl[e.h] => e.v = 1), l, "table equality / hash",
+                        [def |-> E.id, a |-> tbl[e.from], b |-> tbl[e.h], eq |-> e.res, same_hash |-> e.v])
+        /\ UNCHANGED <<tbl, lost>> /\ Keep
 TbDefault == Construct("default", LAMBDA e : TFilled(Len(EN), 0))
 Panicked == /\ IsEvent("panic")
             /\ Mismatch(l, "panic in generated code", [def |-> Rec[l].def, msg |-> Rec[l].msg])
             /\ UNCHANGED <<tbl, lost>> /\ Keep
-Next == Panicked \/ LoadDef \/ TbNew \/ TbFilled \/ TbClosure \/ TbTransform \/ TbWrite \/ TbRead \/ TbDisabled \/ TbAll \/ TbAllOk \/ TbClone \/ TbDefault
+Next == Panicked \/ TbEq \/ LoadDef \/ TbNew \/ TbFilled \/ TbClosure \/ TbTransform \/ TbWrite \/ TbRead \/ TbDisabled \/ TbAll \/ TbAllOk \/ TbClone \/ TbDefault
 Spec == Init /\ [][Next]_vars
 =============================================================================
